@@ -955,8 +955,15 @@ def run_c11(ctx, spec, out):
             changes = []
             if r < 0.6:
                 # a restart with a changed object set: a second generated backend's objects replace the first
-                pstart += rng.choice([10, 100])
-                pidn += 1
+                # (a reload by signal keeps the pid, a restart within the same second keeps program_start: one of the two is enough)
+                rk = rng.random()
+                if rk < 0.5:
+                    pstart += rng.choice([10, 100])
+                    pidn += 1
+                elif rk < 0.8:
+                    pstart += rng.choice([10, 100])
+                else:
+                    pidn += 1
                 wb2, _ = small_world(rng, schema, {"nhosts": [0, 1, 2, 4], "flavour": (flavour, flags)})
                 replaced = True
                 for t in ("hosts", "services", "hostgroups", "servicegroups", "comments", "downtimes"):
